@@ -573,6 +573,51 @@ class C10Executor(Executor):
             self._role_stack = self._role_stack[:-1]
             self._loop_nodes = self._loop_nodes[:-1]
 
+    MUTATORS = {"append", "extend", "insert", "pop", "remove", "clear", "sort", "reverse", "update", "setdefault", "add", "discard", "popitem"}
+
+    def _contracted_pure_method(self, func, st):
+        """also: an un-contracted method of the receiver's class (executed in place) whose body provably leaves `self` alone --
+        no store to self.<attr> / self.<attr>[..], no mutating call on self.<attr>, only self-pure methods of the class called"""
+        if super()._contracted_pure_method(func, st):
+            return True
+        if not isinstance(func.value, ast.Name):
+            return False
+        v = st.lookup(func.value.id)
+        o = st.heap.get(v.ref) if isinstance(v, VRef) else None
+        if o is None or o.kind != "obj" or not o.cls:
+            return False
+        return self._self_pure(o.cls, func.attr, set())
+
+    def _self_pure(self, cls, name, seen):
+        if (cls, name) in seen:
+            return True
+        seen.add((cls, name))
+        c = self.reg.get(f"{self.module.rel}::{cls}.{name}")
+        if c is not None and not c.inline:
+            return "self" not in c.modifies
+        fnode = self.module.functions.get(f"{cls}.{name}")
+        if fnode is None or not fnode.args.args:
+            return False
+        me = fnode.args.args[0].arg
+
+        def on_self(e):
+            while isinstance(e, (ast.Attribute, ast.Subscript)):
+                e = e.value
+            return isinstance(e, ast.Name) and e.id == me
+        for n in ast.walk(fnode):
+            if isinstance(n, (ast.Attribute, ast.Subscript)) and isinstance(n.ctx, (ast.Store, ast.Del)) and on_self(n):
+                return False
+            if isinstance(n, ast.Call) and isinstance(n.func, ast.Attribute) and on_self(n.func):
+                recv = n.func.value
+                if isinstance(recv, ast.Name):                       # self.m(...)
+                    if not self._self_pure(cls, n.func.attr, seen):
+                        return False
+                elif n.func.attr in self.MUTATORS:                   # self.x.append(...)
+                    return False
+            if isinstance(n, ast.Call) and any(isinstance(a, ast.Name) and a.id == me for a in n.args):
+                return False                                          # self handed to another function
+        return True
+
     def loop_spec(self, node):
         if self._role_stack and self._role_stack[-1] is not None and self._loop_nodes and self._loop_nodes[-1] is node:
             return self._role_stack[-1]
